@@ -16,7 +16,7 @@ NQ(e) == IF e.api \in {"gai", "ghbn"} /\ e.family = 0 THEN 2 ELSE 1
 
 HCall(e) ==
   IF e.api \in SearchApis THEN
-       LET c == Candidates(e.name, e.wname, e.dots, e.enddot) IN
+       LET c == Candidates(e.name, e.wname, e.kname, e.dots, e.enddot) IN
        /\ sr' = sr @@ (e.t :> [cands |-> c, idx |-> 0, nq |-> NQ(e), seen |-> {}, answered |-> {}, single |-> FALSE,
                                nodata |-> FALSE, api |-> e.api, hard |-> FALSE, dots |-> e.dots])
        /\ UNCHANGED <<scfg, sqm>> /\ Acc
@@ -90,7 +90,7 @@ TNext ==
   /\ LET e == Tr[l] IN
        IF e.e = "reset" THEN
             /\ (hid # "" => PrintT(ToJson(Verdict)))
-            /\ scfg' = [ndots |-> 1, domains |-> <<>>, nosearch |-> 0] /\ sr' = <<>> /\ sqm' = <<>>
+            /\ scfg' = [ndots |-> 1, domains |-> <<>>, nosearch |-> 0, noaliases |-> 1, hostaliases |-> 0] /\ sr' = <<>> /\ sqm' = <<>>
             /\ bad' = FALSE /\ why' = [line |-> 0, label |-> ""] /\ hid' = e.id
        ELSE hid' = hid /\ (IF bad THEN Skip ELSE Handle(e))
 TSpec == TInit /\ [][TNext]_tvars
